@@ -212,7 +212,7 @@ for _nb in range(0, 5):
         for _single in ((True, False) if _np == 1 else (False,)):
             if _nb + _np > 5:
                 continue     # measured: do not exhaust within 900 CPU s; outside the claim
-            thorough = _nb + _np > 4
+            thorough = _nb + _np > 3
             CELLS.append(Cell(f'K2.validate_put_arglike[body={_nb},put={_np},{"one" if _single else "list"}]',
                               _mk_arglike_cell(_nb, _np, _single), 'K',
                               ['fst.fst_misc.validate_put_arglike', 'fst.astutil.arglike_kind'],
